@@ -457,6 +457,14 @@ def r19_9_fast_prefix(repo: Repo, rep: Report):
     r01_2_3_arm_semantics(repo, rep)
 
 
+def r19_10_shared(repo: Repo, rep: Report):
+    """a symbolic JUMP explores every JUMPDEST that is not proved unreachable (shared with C02 R02.1)"""
+    from hsa.rules.verdicts import check_verdict_sites
+
+    rep.rule("R02.1", "jump-target candidates are kept unless the solver says unsat (shared with C02)")
+    check_verdict_sites(repo, rep, "R02.1", modules=("sevm",), only_functions={"sevm.SEVM.run", "sevm.SEVM.jumpi"})
+
+
 RULES = [
     r19_9_fast_prefix,
     r19_1_insn_len,
@@ -467,4 +475,5 @@ RULES = [
     r19_6_duck_typed_siblings,
     r19_7_concreteness_predicate,
     r19_8_code_slice_zero_pad,
+    r19_10_shared,
 ]
